@@ -87,24 +87,50 @@ def gen_tree():
     return files, langs
 
 
+def ast_term(items):
+    """a replacement (JSON from the harness op h_unicode_ast) as a Coq term of Model/RuleAst.v"""
+    def item(x):
+        if x == "x":
+            return "X"
+        if x == "s":
+            return "Z"
+        if "t" in x:
+            return "T1" if x["t"] else "T0"
+        if "w" in x:
+            return "(RWrap %s)" % lst(x["w"])
+        bs = "(BEnd %s)" % ("ENone" if x["else"] is None else "(ESome %s)" % lst(x["else"]))
+        for b in reversed(x["test"]):
+            bs = "(BCons %s %s)" % (lst(b), bs)
+        return "(RTest %s)" % bs
+
+    def lst(l):
+        out = "RNil"
+        for x in reversed(l):
+            out = "(RCons %s %s)" % (item(x), out)
+        return out
+    return lst(items)
+
+
 def gen_unicode_entries():
-    """Gen/UnicodeEntries.v: per language Unicode file, (first code point of the key, speaks under every condition)"""
+    """Gen/UnicodeEntries.v: per language Unicode file, (first code point of the key, the replacement as a rule AST)"""
     ops, names = [], []
     base = os.path.join(C.RULES, "Languages")
     for root, _, files in sorted(os.walk(base)):
         for f in sorted(files):
             if f in ("unicode.yaml", "unicode-full.yaml") and os.sep + "zz" not in root:
-                ops.append(["h_unicode_entries", os.path.join(root, f)])
+                ops.append(["h_unicode_ast", os.path.join(root, f)])
                 names.append(os.path.relpath(os.path.join(root, f), base))
     r = C.one_session(ops)["res"]
-    items, total = [], 0
-    for nm, x in zip(names, r):
+    defs, total = [], 0
+    for i, (nm, x) in enumerate(zip(names, r)):
         ents = x.get("ok")
         if ents is None:
             raise RuntimeError("cannot read %s: %s" % (nm, x))
         total += len(ents)
-        items.append("(%s, [%s])" % (cstr(nm), "; ".join("(%d, %s)" % (ord(k[0]), "true" if s else "false") for k, s in ents if k)))
-    body = HEADER + "From MC Require Import Lib.Base.\nDefinition unicode_entries : list (str * list (N * bool)) := " + clist(items) + ".\n"
+        defs.append("Definition uf%d : list (N * repls) := [\n%s\n]." % (i, ";\n".join("(%d, %s)" % (ord(k[0]), ast_term(a)) for k, a in ents if k)))
+    body = HEADER + "From MC Require Import Lib.Base Model.RuleAst.\n" \
+        "Notation T1 := (RText true).\nNotation T0 := (RText false).\nNotation X := RXpath.\nNotation Z := RSilent.\n" + "\n".join(defs) + \
+        "\nDefinition unicode_entries : list (str * list (N * repls)) := [" + "; ".join("(%s, uf%d)" % (cstr(nm), i) for i, nm in enumerate(names)) + "].\n"
     C.write_if_changed(os.path.join(C.GEN, "UnicodeEntries.v"), body)
     return total
 
@@ -429,6 +455,62 @@ def known_witnesses(res):
                               {"kind": "select", "prefs": [["set_preference", "BrailleCode", c]]})
 
 
+def py_speaks(items):
+    """the analysis of Model/RuleAst.v speaks_list, in python, for the search only"""
+    def item(x):
+        if x == "x":
+            return True
+        if x == "s":
+            return False
+        if "t" in x:
+            return x["t"]
+        if "w" in x:
+            return lst(x["w"])
+        return all(lst(b) for b in x["test"]) and x["else"] is not None and lst(x["else"])
+
+    def lst(l):
+        return any(item(x) for x in l)
+    return lst(items)
+
+
+def may_be_silent(c):
+    return c in (0x20, 0x2C, 0xA0) or 0x2000 <= c <= 0x200F or 0x2028 <= c <= 0x202F or 0x205F <= c <= 0x2064 or 0xE000 <= c <= 0xF8FF
+
+
+def silent_search(res):
+    """when the Unicode obligation breaks: which character of which language can be silenced, shown on the library"""
+    base = os.path.join(C.RULES, "Languages")
+    found = 0
+    for lang in [l for l in shipped_languages() if not l.startswith("zz")]:
+        d = os.path.join(base, *lang.split("-"))
+        for f in ("unicode.yaml", "unicode-full.yaml"):
+            p = os.path.join(d, f)
+            if not os.path.exists(p):
+                continue
+            ents = C.one_session([["h_unicode_ast", p]])["res"][0].get("ok") or []
+            bad = [k for k, a in ents if k and not may_be_silent(ord(k[0])) and not py_speaks(a)]
+            for k in bad[:20]:
+                ch = k[0]
+                for style in ("ClearSpeak", "SimpleSpeak"):
+                    for verb in ("Terse", "Medium", "Verbose"):
+                        pre = [["set_preference", "Language", lang], ["set_preference", "SpeechStyle", style], ["set_preference", "Verbosity", verb]]
+                        r = C.one_session(pre + [["set_mathml", "<math><mi>x</mi><mo>&#x%X;</mo><mi>y</mi></math>" % ord(ch)], ["get_spoken_text"],
+                                                 ["set_mathml", "<math><mi>x</mi><mo>&#x2063;</mo><mi>y</mi></math>"], ["get_spoken_text"]])["res"]
+                        a, b = r[-3].get("ok"), r[-1].get("ok")
+                        if a is not None and b is not None and "".join(a.split()).replace(",", "") == "".join(b.split()).replace(",", ""):
+                            found += 1
+                            res.violation("%s/%s/%s: the character U+%04X (%s of %s) is not spoken: 'x %s y' is %r" % (lang, style, verb, ord(ch), f, lang, ch, a),
+                                          {"kind": "config", "config": ["speech", [lang, style, verb]], "expr": "<mrow><mi>x</mi><mo>&#x%X;</mo><mi>y</mi></mrow>" % ord(ch),
+                                           "op": ["get_spoken_text"], "silent_character": "U+%04X" % ord(ch)})
+                            break
+                    else:
+                        continue
+                    break
+                if found >= 3:
+                    return found
+    return found
+
+
 def run(res):
     res.rule = ("every shipped language / region (zz test fixtures excluded) x {ClearSpeak, SimpleSpeak} x {Terse, Medium, Verbose} (quick: one seeded verbosity per "
                 "language and style), every shipped braille code, 13 regional / unknown / oddly written language names; corpus: 25 textbook expressions, 20 "
@@ -439,14 +521,14 @@ def run(res):
     generate(res)
 
     def on_broken(log):
-        return oracle(res) > 0
+        return (silent_search(res) if "UnicodeEntries" in log else 0) + oracle(res) > 0
     proved = C.check_proofs(res, "C15", ["Props/C15.vo", "Tie/C15Tie.vo"], "Props/C15.v", search=on_broken)
     known_witnesses(res)
     if proved:
         oracle(res)
     res.trusted += ["hook prefs::verif::files (the rule files the preference manager has located)",
-                    "harness h_unicode_entries: the structural analysis of the Unicode rule files with the library's YAML parser crate (an entry speaks if some item is a "
-                    "text / xpath / spell item or a test all of whose branches exist and speak)",
+                    "harness h_unicode_ast: the dump of every Unicode replacement as a rule AST with the library's YAML parser crate (the analysis itself is Coq's speaks_list, "
+                    "proved sound in Proofs/RuleAstP.v; computed items -- x, spell, pronounce, translate -- are taken to speak)",
                     "python listing of /repo/Rules (os.walk) and the split of reported paths into components"]
     res.assumptions += ["what a located rule file does when its rules fire (xpath evaluation, rule matching) is the library's and is decided by the oracle over the corpus, not proved",
                         "the Languages/zz and zz/aa test fixtures are excluded from the oracle (they are deliberately incomplete); they are part of the file-location tie",
